@@ -170,6 +170,9 @@ func init() {
 	}
 }
 
+// e2eHookCertLayout lets a scenario lay out the certificate files itself (C14)
+var e2eHookCertLayout func(dir string) (certPath, keyPath string)
+
 var e2eTmpRoot = func() string {
 	d := os.Getenv("VERIF_TMP")
 	if d == "" {
@@ -194,8 +197,12 @@ func newE2EEnv(o fingerproxy.VerifOptions) *e2eEnv {
 	cert, key := genCertPair("example.test")
 	e.certPEM = cert
 	o.CertFile, o.KeyFile = filepath.Join(dir, "tls.crt"), filepath.Join(dir, "tls.key")
-	os.WriteFile(o.CertFile, cert, 0o600)
-	os.WriteFile(o.KeyFile, key, 0o600)
+	if e2eHookCertLayout != nil {
+		o.CertFile, o.KeyFile = e2eHookCertLayout(dir)
+	} else {
+		os.WriteFile(o.CertFile, cert, 0o600)
+		os.WriteFile(o.KeyFile, key, 0o600)
+	}
 	o.ForwardURL = "http://" + e.backend.ln.Addr().String()
 	e.ctx, e.cancel = context.WithCancel(context.Background())
 	st, err := fingerproxy.VerifBuild(e.ctx, o)
